@@ -181,5 +181,10 @@ func blockedOnMutex(gid string) bool {
 		return false
 	}
 	state := string(rest[:j])
-	return bytes.HasPrefix([]byte(state), []byte("sync.Mutex.Lock")) || bytes.HasPrefix([]byte(state), []byte("semacquire"))
+	for _, w := range []string{"sync.Mutex.Lock", "sync.RWMutex.Lock", "sync.RWMutex.RLock", "semacquire"} {
+		if bytes.HasPrefix([]byte(state), []byte(w)) {
+			return true
+		}
+	}
+	return false
 }
